@@ -359,6 +359,7 @@ func cmdCheck(args []string) int {
 				FeasTimeout:   time.Duration(optInt(j.spec, *tier, "feas_timeout", 10)) * time.Second,
 				ProveTimeout:  time.Duration(optInt(j.spec, *tier, "prove_timeout", map[string]int{"quick": 30, "thorough": 120}[*tier])) * time.Second,
 				Trace:         *trace,
+				HMACFresh:     j.spec.Opts["hmac"] == "fresh",
 			}
 			r := exploreCase(j.l.prog, j.spec, j.cases, cfg, optInt(j.spec, *tier, "maxpaths", 20000), *tier == "thorough")
 			results[i] = jobResult{j.spec, r}
